@@ -301,7 +301,11 @@ Inductive ev :=
 | ERestart                                         (* Device.Down(); Device.Up(): every peer Stop()ped and Start()ed *)
 | ECookie (receiver : N) (nonce : N) (c : term)    (* datagram: cookie reply, c = the sealed cookie field *)
 | ESetPrivateKey (new : kid)                       (* UAPI private_key=: Device.SetPrivateKey *)
-| EAge (secs : N).                                 (* secs seconds pass for every peer's cookie (hook VerifShiftPeerCookie) *)
+| EAge (secs : N)
+| EInitKey (m : init_msg) (e : kid) (idx : N) (new : kid).
+    (* an initiation, and SetPrivateKey(new) scheduled in the handshake worker exactly between
+       ConsumeMessageInitiation and SendHandshakeResponse (if the initiation gets that far; else
+       after the worker is done) *)                                 (* secs seconds pass for every peer's cookie (hook VerifShiftPeerCookie) *)
 
 (* Handshake.Clear(): the per-handshake secrets and the local index go; the
    CONFIGURATION of the peer (presharedKey, remoteStatic, precomputedStaticStatic)
@@ -382,10 +386,18 @@ Definition find_any_index (ps : list peer) (idx : N) : option peer :=
 (* CookieGenerator.Init(pk): mac2.encryptionKey = Hash(WGLabelCookie || pk) *)
 Definition cookie_key (pk : term) : term := THash2 LabelCookie pk.
 
-Definition dev_step (d : dev) (e : ev) : dev * list out :=
-  match e with
-  | EInit m er idx =>
-      (* RoutineHandshake: CheckMAC1, ConsumeMessageInitiation, SendHandshakeResponse *)
+(* Device.SetPrivateKey.  sk.Equals(current) => nothing.  A key whose public half is a configured
+   peer's key would remove that peer; the real device deadlocks there (design finding F3c), so
+   this is modelled as not happening. *)
+Definition set_key_noop (d : dev) (new : kid) : bool :=
+  Nat.eqb new (d_static d) || existsb (fun p => Nat.eqb (p_id p) new) (d_peers d).
+Definition rekey_dev (d : dev) (new : kid) : dev :=
+  {| d_static := new; d_peers := map (rekey_peer new) (d_peers d); d_olds := d_static d :: d_olds d |}.
+Definition set_private_key (d : dev) (new : kid) : dev :=
+  if set_key_noop d new then d else rekey_dev d new.
+
+(* RoutineHandshake, MessageInitiationType: CheckMAC1, ConsumeMessageInitiation, SendHandshakeResponse *)
+Definition init_step (d : dev) (m : init_msg) (er : kid) (idx : N) : dev * list out :=
       if negb (check_mac1 (d_static d) (init_body m) (i_mac1 m)) then (d, []) else
       match consume_init (d_static d) (hs_list d) false m with
       | None => (d, [])
@@ -404,7 +416,11 @@ Definition dev_step (d : dev) (e : ev) : dev * list out :=
             end
           end
         end
-      end
+      end.
+
+Definition dev_step (d : dev) (e : ev) : dev * list out :=
+  match e with
+  | EInit m er idx => init_step d m er idx
   | EResp m =>
       if negb (check_mac1 (d_static d) (resp_body m) (r_mac1 m)) then (d, []) else
       match find_hs_index (d_peers d) (r_receiver m) with
@@ -476,10 +492,36 @@ Definition dev_step (d : dev) (e : ev) : dev * list out :=
         end
       end
   | ESetPrivateKey new =>
-      (* sk.Equals(current) => nothing.  A key whose public half is a configured peer's key would remove
-         that peer; the real device deadlocks there (design finding F3c), so this is modelled as not happening. *)
-      if Nat.eqb new (d_static d) || existsb (fun p => Nat.eqb (p_id p) new) (d_peers d) then (d, [])
-      else ({| d_static := new; d_peers := map (rekey_peer new) (d_peers d); d_olds := d_static d :: d_olds d |}, [])
+      (set_private_key d new, [])
   | EAge secs =>
       ({| d_static := d_static d; d_peers := map (age_peer secs) (d_peers d); d_olds := d_olds d |}, [])
+  | EInitKey m er idx new =>
+      (* RoutineHandshake as for EInit, with SetPrivateKey run by another goroutine after
+         ConsumeMessageInitiation has stored the consumed state and before CreateMessageResponse:
+         ExpireCurrentKeypairs -> Handshake.Clear() zeroes that state, so no response is built *)
+      if negb (check_mac1 (d_static d) (init_body m) (i_mac1 m)) then (set_private_key d new, []) else
+      match consume_init (d_static d) (hs_list d) false m with
+      | None => (set_private_key d new, [])
+      | Some (pid, h1) =>
+        match get_peer (d_peers d) pid with
+        | None => (set_private_key d new, [])
+        | Some p =>
+          if set_key_noop d new then init_step d m er idx else
+          let d2 := rekey_dev (upd_peer d (upd p h1 (p_kp p) (p_staged p))) new in
+          match get_peer (d_peers d2) pid with
+          | None => (d2, [])
+          | Some p2 =>
+            match create_resp (p_hs p2) er idx with            (* SendHandshakeResponse *)
+            | None => (d2, [])
+            | Some (h2, r) =>
+              let r' := stamp_resp (TPub pid) (held_cookie p2) r in
+              match begin_session h2 (p_kp p2) with
+              | None => (upd_peer d2 (sent_mac1 (upd p2 h2 (p_kp p2) (p_staged p2)) (r_mac1 r')), [])
+              | Some (h3, s3, _) =>
+                (upd_peer d2 (sent_mac1 (upd p2 h3 s3 (p_staged p2)) (r_mac1 r')), [OResp pid r'])
+              end
+            end
+          end
+        end
+      end
   end.
